@@ -61,6 +61,7 @@ def run(ctx):
     from fast_ticc import front_end, admm, cluster_label_assignment as cla, graphical_lasso as gl
     rng = np.random.default_rng(ctx.seed)
     ctx.proof_layer(allowed_axioms=(), coq_deps=[])
+    core.note_drift(ctx, ANCHORS)
     # ---- (a) inventory tie
     exp = json.load(open(os.path.join(core.VERIF, "vcheck", "expected_inventory.json")))
     sites = inventory.mutation_sites()
